@@ -474,8 +474,8 @@ Print corr_bad. Print prop_bad. Print setup_ok.
                 coq_fail = cout[-3000:]
                 continue
             a, b = a.replace("%nat", ""), b.replace("%nat", "")
-            corr_bad += [(int(x), int(y)) for x, y in re.findall(r"\((\d+),\s*(\d+)\)", a)]
-            prop_bad += [(int(x), int(y)) for x, y in re.findall(r"\((\d+),\s*(\d+)\)", b)]
+            corr_bad += [(int(x), int(y)) for x, y in re.findall(r"\(\s*(\d+)\s*,\s*(\d+)\s*\)", a)]
+            prop_bad += [(int(x), int(y)) for x, y in re.findall(r"\(\s*(\d+)\s*,\s*(\d+)\s*\)", b)]
             if si == 0:
                 for k in vres:
                     vres[k] = vlib.parse_nat_list(vlib.parse_printed(cout, k)) or []
